@@ -98,6 +98,10 @@ inductive Op
   | sort (h : Nat)                                     -- h.sort(key=payload)
   | clear (h : Nat)
   | drop (h : Nat)                                     -- the caller forgets the structure (`del name`)
+  /-- the constructor with arguments: `Structure(atoms, lattice=L)` / `PDFFitStructure(...)` / `title=`;
+  `atoms` absent, a Structure (copy construction) or any other iterable; `lattice` absent, a new
+  `Lattice` object or the lattice object of a live structure -/
+  | ctor (src : Option Iter) (lat : Option LatSrc)
   deriving DecidableEq, Repr
 
 /-! ## CPython `list` index / slice arithmetic (polymorphic, shared by model and specification) -/
@@ -365,6 +369,14 @@ def idxOfE {α} [DecidableEq α] (x : α) : List α → Nat → Except Err Nat
   | [], _ => .error .value
   | a :: l, k => if a = x then .ok k else idxOfE x l (k + 1)
 
+/-- the `lattice=` argument of the constructor: absent means a new `Lattice()` -/
+def checkLat {α} (v : View α) : Option LatSrc → Except Err LatSrc
+  | none => .ok .fresh
+  | some .fresh => .ok .fresh
+  | some (.ofStru h') => match v.atoms h' with
+    | .error e => .error e
+    | .ok _ => .ok (.ofStru h')
+
 /-- the plan of an operation.  Errors raised here happen before any side effect. -/
 def planG {α} [DecidableEq α] (v : View α) : Op → Except Err (Act α)
   | .mkAtom p => .ok (.mkAtom p)
@@ -487,6 +499,18 @@ def planG {α} [DecidableEq α] (v : View α) : Op → Except Err (Act α)
   | .drop h => match v.atoms h with
     | .error e => .error e
     | .ok _ => .ok (.drop h)
+  -- `__init__`: copy construction (`__copy__`: all atoms copied) or `extend(atoms)` with the default
+  -- flag on the empty new structure; the `lattice` argument goes through the property setter, so in
+  -- the end every atom of the new structure refers to the structure's lattice
+  | .ctor src lat => match src with
+    | none => match checkLat v lat with
+      | .error e => .error e
+      | .ok L => .ok (.plan { tgt := .new L, pre := none, inc := [], flags := [], edit := .replace })
+    | some it => match v.iter it with
+      | .error e => .error e
+      | .ok (xs, isS) => match checkLat v lat with
+        | .error e => .error e
+        | .ok L => .ok (.plan { tgt := .new L, pre := none, inc := xs, flags := copyFlags .dflt isS [] xs, edit := .replace })
 
 /-! ## The heap -/
 
@@ -776,6 +800,10 @@ def pLatSrc : P LatSrc
   | "of" :: r => (pNat r).map (fun (h, r') => (.ofStru h, r'))
   | _ => none
 
+def pOptLat : P (Option LatSrc)
+  | "_" :: r => some (none, r)
+  | r => (pLatSrc r).map (fun (l, r') => (some l, r'))
+
 def pOp : P Op
   | "mkatom" :: r => (pNat r).map (fun (p, r') => (.mkAtom p, r'))
   | "mkstru" :: r => some (.mkStru, r)
@@ -829,6 +857,10 @@ def pOp : P Op
     let (h, r) ← pNat r; pure (.clear h, r)
   | "drop" :: r => do
     let (h, r) ← pNat r; pure (.drop h, r)
+  | "ctor" :: "N" :: r => do
+    let (l, r) ← pOptLat r; pure (.ctor none l, r)
+  | "ctor" :: r => do
+    let (it, r) ← pIter r; let (l, r) ← pOptLat r; pure (.ctor (some it) l, r)
   | _ => none
 
 /-- ops separated by ";" -/
